@@ -168,7 +168,7 @@ def setup_worker(k):
     w = os.path.join(SCR, "w%d" % k)
     os.makedirs(w, exist_ok=True)
     run("rsync -a --delete --exclude target --exclude .git %s/ %s/crate/" % (REPO, w))
-    run("rsync -a --delete --exclude target %s/harness/ %s/harness/" % (ROOT, w))
+    run("rsync -a --delete --exclude 'target*' %s/harness/ %s/harness/" % (ROOT, w))
     ct = os.path.join(w, "harness", "Cargo.toml")
     s = open(ct).read().replace('path = "/repo"', 'path = "%s/crate"' % w)
     open(ct, "w").write(s)
